@@ -17,6 +17,8 @@ Read from the *runtime objects* of the working tree (so a refactoring that keeps
 
 Anything outside these shapes is a translator failure (a broken table obligation of C05).
 """
+import resource
+import signal
 import struct
 
 MODULE = 'TxdbusModel.Gen.C05Wire'
@@ -152,7 +154,36 @@ def classify(code, f):
     return None
 
 
+class _ProbeAbort(BaseException):
+    pass
+
+
 def emit(repo):
+    """The probes call functions of the tree under test on hostile arguments: run them under an address-space cap and
+    a wall-clock alarm, so that a reader that loops or allocates by a declared length is a translator error."""
+    def on_alarm(signum, frame):
+        raise _ProbeAbort()
+    old_handler = signal.signal(signal.SIGALRM, on_alarm)
+    soft, hard = resource.getrlimit(resource.RLIMIT_AS)
+    with open('/proc/self/statm') as fh:
+        cap = int(fh.read().split()[0]) * resource.getpagesize() + (512 << 20)
+    if hard != resource.RLIM_INFINITY:
+        cap = min(cap, hard)
+    resource.setrlimit(resource.RLIMIT_AS, (cap, hard))
+    signal.setitimer(signal.ITIMER_REAL, 30.0)
+    try:
+        return _emit(repo)
+    except _ProbeAbort:
+        raise TranslatorError('a probe of marshal.pad / marshal.unmarshallers did not return within 30 s')
+    except MemoryError:
+        raise TranslatorError('a probe of marshal.unmarshallers exhausted memory (allocation by a declared length?)')
+    finally:
+        signal.setitimer(signal.ITIMER_REAL, 0)
+        signal.signal(signal.SIGALRM, old_handler)
+        resource.setrlimit(resource.RLIMIT_AS, (soft, hard))
+
+
+def _emit(repo):
     from txdbus import marshal, message
     out = []
     w = out.append
